@@ -47,15 +47,15 @@ package splitcarfetcher
 
 //@ spec func validMRA(m *MultiReaderAt) bool = len(m.offsets) >= 1 && len(m.readers) == len(m.offsets) && m.offsets[0] == 0 && (forall a int :: 0 <= a && a < len(m.offsets) ==> 0 <= m.offsets[a] && m.offsets[a] <= m.offsets[len(m.offsets)-1]) && (forall a, b int :: 0 <= a && a <= b && b < len(m.offsets) ==> m.offsets[a] <= m.offsets[b]) && (forall a int :: 0 <= a && a < len(m.readers) ==> m.readers[a] != nil && fsize(m.readers[a]) >= 0)
 
-// Proved (C16): the bytes delivered are the concatenation; no byte beyond the true end; io.EOF only out of the last piece;
-// a short read without error can only stop strictly before the last piece's offset, i.e. inside a piece whose reader
-// ended before the size the offsets table declares for it.
-// NOT proved, expected (C13, last ensures): `err == nil ==> totalN == len(p)`. A piece shorter than declared answers
-// (n < toRead, io.EOF); EOF of a non-last piece is swallowed, off is not advanced, every later piece is skipped and the
-// function returns (totalN < len(p), nil). Concrete run: readers "AB","CDEF", sizes {4,4}, ReadAt(make([]byte,8), 0) = (2, nil).
-// vcgo's io.ReaderAt model has no "EOF only at the end of the file" clause, so this clause fails with and without the
-// C16 size precondition fsize(readers[i]) == offsets[i+1]-offsets[i]; the size precondition is therefore not stated.
-// `int(off)+len(p) <= MaxInt64`: otherwise toRead is clipped by MaxInt64-off in the last piece.
+// Proved (C16 + C13): the bytes delivered are the concatenation; no byte beyond the true end; io.EOF only out of the last
+// piece and only with totalN < len(p); success means the whole buffer was filled (`err == nil ==> totalN == len(p)`).
+// The last clause holds since a non-last piece that delivers fewer bytes than its slot is reported as
+// io.ErrUnexpectedEOF (before that fix: readers "AB","CDEF", sizes {4,4}, ReadAt(make([]byte,8), 0) = (2, nil)).
+// It needs no size precondition on the pieces. `int(off)+len(p) <= MaxInt64`: otherwise toRead is clipped by
+// MaxInt64-off in the last piece.
+// Invariant: while pieces remain (rangeidx0 < len) the walk is on track: off == old(off)+totalN and the next piece starts
+// at or before off (so `continue` is never taken); once all pieces are consumed without break, the last one was short
+// with io.EOF (reachedEnd).
 //@ func (*MultiReaderAt) ReadAt
 //@   mode int
 //@   requires validMRA(m) && off >= 0 && int(off) + len(p) <= 9223372036854775807
@@ -64,7 +64,6 @@ package splitcarfetcher
 //@   ensures forall j int :: 0 <= j && j < totalN ==> p[j] == catAt(m, int(off)+j, 0)
 //@   ensures totalN > 0 ==> int(off) + totalN <= int(m.offsets[len(m.offsets)-1]) + fsize(m.readers[len(m.offsets)-1])
 //@   ensures err == io.EOF ==> totalN < len(p) && int(off) + totalN >= int(m.offsets[len(m.offsets)-1])
-//@   ensures err == nil && totalN < len(p) ==> len(m.offsets) >= 2 && int(off) + totalN < int(m.offsets[len(m.offsets)-1])
 //@   ensures err == nil ==> totalN == len(p)
 //@   loop 0 invariant 0 <= rangeidx0 && rangeidx0 <= len(m.offsets)
 //@   loop 0 invariant fsize(m.readers[len(m.offsets)-1]) >= 0 && (forall t int :: 0 <= t && t < len(m.offsets) ==> 0 <= m.offsets[t] && m.offsets[t] <= m.offsets[len(m.offsets)-1])
@@ -72,9 +71,8 @@ package splitcarfetcher
 //@   loop 0 invariant forall j int :: 0 <= j && j < totalN ==> p[j] == catAt(m, int(old(off))+j, 0)
 //@   loop 0 invariant totalN > 0 ==> int(old(off)) + totalN <= int(m.offsets[len(m.offsets)-1]) + fsize(m.readers[len(m.offsets)-1])
 //@   loop 0 invariant 0 <= int(off) && int(off) <= int(old(off)) + totalN && int(off) + remaining <= 9223372036854775807
-//@   loop 0 invariant (reachedEnd ==> rangeidx0 == len(m.offsets) && remaining > 0 && m.offsets[len(m.offsets)-1] <= off)
-//@   loop 0 invariant rangeidx0 < len(m.offsets) && m.offsets[rangeidx0] <= off ==> int(off) == int(old(off)) + totalN
-//@   loop 0 invariant rangeidx0 < len(m.offsets) && m.offsets[rangeidx0] <= off ==> forall x int :: x >= int(off) ==> catAt(m, x, 0) == catAt(m, x, rangeidx0)
-//@   loop 0 invariant !(rangeidx0 < len(m.offsets) && m.offsets[rangeidx0] <= off) ==> remaining > 0 && (forall t int :: rangeidx0 <= t && t < len(m.offsets) ==> off < m.offsets[t])
-//@   loop 0 invariant !(rangeidx0 < len(m.offsets) && m.offsets[rangeidx0] <= off) && !reachedEnd ==> len(m.offsets) >= 2 && int(old(off)) + totalN < int(m.offsets[len(m.offsets)-1])
+//@   loop 0 invariant reachedEnd == (rangeidx0 == len(m.offsets))
+//@   loop 0 invariant rangeidx0 == len(m.offsets) ==> remaining > 0 && m.offsets[len(m.offsets)-1] <= off
+//@   loop 0 invariant rangeidx0 < len(m.offsets) ==> m.offsets[rangeidx0] <= off && int(off) == int(old(off)) + totalN
+//@   loop 0 invariant rangeidx0 < len(m.offsets) ==> forall x int :: x >= int(off) ==> catAt(m, x, 0) == catAt(m, x, rangeidx0)
 //@   loop 0 use forall x int :: unfold(catAt(m, x, rangeidx0))
